@@ -130,6 +130,20 @@ func runCase(res *vkit.Result, c Case) {
 		plan.NewGunErr = fmt.Errorf("verif: cannot create gun %d", c.K)
 	}
 	perTokens := schedule.NewConst(rate, rpsDur).Left()
+	// in a third of the cases with per-instance profiles the profile is written as config (a list of
+	// two parts) and the factory is the one the config decoder builds, as in a real run
+	var decoded func() (core.Schedule, error)
+	if perInstance && c.Seed%3 == 0 && rpsDur >= 4*time.Millisecond {
+		d1 := (rpsDur / 2).Truncate(time.Millisecond)
+		d2 := (rpsDur - d1).Truncate(time.Millisecond)
+		pc, err := vkit.DecodedPool([]any{map[string]any{"type": "const", "ops": rate, "duration": d1.String()}, map[string]any{"type": "const", "ops": rate, "duration": d2.String()}}, nil, true)
+		if err != nil {
+			res.Inconclusive(true, "rps config rejected: %v", err)
+			return
+		}
+		decoded = pc.NewRPSSchedule
+		perTokens = schedule.NewConst(rate, d1).Left() + schedule.NewConst(rate, d2).Left()
+	}
 	var smu sync.Mutex
 	byGoid := map[int64]*vkit.RecSchedule{}
 	var shared *vkit.RecSchedule
@@ -148,7 +162,14 @@ func runCase(res *vkit.Result, c Case) {
 			}
 			return shared, nil
 		}
-		r := &vkit.RecSchedule{Schedule: schedule.NewConst(rate, rpsDur)}
+		var inner core.Schedule = schedule.NewConst(rate, rpsDur)
+		if decoded != nil {
+			var err error
+			if inner, err = decoded(); err != nil {
+				return nil, err
+			}
+		}
+		r := &vkit.RecSchedule{Schedule: inner}
 		byGoid[vkit.Goid()] = r
 		return r, nil
 	}
